@@ -26,6 +26,7 @@ struct Config {
   // short transfers: the nth readv/writev on a pipe moves at most one byte
   int short_call = -1, short_nth = 0;
   bool reverse_ready_order = false;   // epoll_wait reports ready descriptors in reverse registration order
+  int uring_sq_entries = 0;           // io_uring: submission ring size the kernel reports (0 = as requested, capped at 16)
 };
 
 void reset(const Config& c = Config{});   // start of an execution: forget every descriptor
@@ -48,4 +49,12 @@ long k_write(int fd, const void* buf, size_t n);
 int k_close(int fd);
 int k_pipe2(int fds[2], int flags);
 int pipe_bytes(int rfd);   // bytes currently buffered in the pipe whose read end is rfd
+
+// ---- io_uring simulator (ksim_uring.cpp; only in executables that link it) ----
+void uring_reset();
+std::string uring_leaks();                 // regions still mapped, completion-queue overflow, ...
+int uring_pending(int fd);                 // requests submitted and not yet completed
+bool uring_request_points_into(const void* p, size_t n);   // a pending request's user_data or iovec lies in [p, p+n)
+int k_open_file(const void* data, size_t n);                // in-memory regular file
+std::string file_contents(int fd);
 }  // namespace ksim
